@@ -115,6 +115,10 @@ service {
   method { name: "Download" input_type: ".verif.v1.Msg" output_type: ".verif.v1.Blob" server_streaming: true
     options { [google.api.http] { get: "/v1/{name=files/**}:download" response_body: "file" } } }
 }
+service {
+  name: "Aux"
+  method { name: "Post" input_type: ".verif.v1.Msg" output_type: ".verif.v1.Msg" }
+}
 `
 
 var (
